@@ -204,3 +204,7 @@ package annotations
 //@ func IsInt64NumberEncoding(field *protogen.Field) (r bool)
 //@   pure
 //@   ensures r == spec.int64Number(field)
+
+// the declared examples of a field: a function of the field alone (used as a function symbol by the mock emitters, C20)
+//@ func GetFieldExamples(field *protogen.Field) (r []string)
+//@   pure
